@@ -8,6 +8,7 @@
 (*   objs    object id -> term [k, p, iv, a]  (a = operand object ids)     *)
 (* One action per public call:                                             *)
 (*   Enter / Exit            AnnotatedQueue.__enter__ / __exit__           *)
+(*   EnterTape / Exit        QuantumTape.__enter__ / __exit__              *)
 (*   StopEnter / StopExit    QueuingManager.stop_recording()               *)
 (*   Create(term, operands)  constructing an operator / wrapper /          *)
 (*                           measurement: the operands leave the ACTIVE    *)
@@ -44,6 +45,17 @@ StopEnter == /\ saved' = Append(saved, stack) /\ stack' = <<>>
              /\ UNCHANGED <<queues, objs, created, consumed, unrec>>
 StopExit == /\ saved # <<>> /\ stack' = Last(saved) /\ saved' = Pop(saved)
             /\ UNCHANGED <<queues, objs, created, consumed, unrec>>
+
+\* with QuantumTape() as t: the tape object is queued in the enclosing context, then becomes the active context
+EnterTape(term) ==
+  LET o == Len(objs) + 1 IN
+  /\ objs' = Append(objs, term)
+  /\ queues' = Append(AppendTo(queues, stack, o), <<>>)
+  /\ stack' = Append(stack, Len(queues) + 1)
+  /\ IF stack = <<>> THEN unrec' = unrec \cup {o} /\ created' = Append(created, <<>>)
+     ELSE created' = Append([created EXCEPT ![Last(stack)] = Append(@, o)], <<>>) /\ unrec' = unrec
+  /\ consumed' = Append(consumed, {})
+  /\ UNCHANGED saved
 
 Create(term, ops) ==
   LET o == Len(objs) + 1 IN
